@@ -105,7 +105,18 @@ META["C10"] = {
     "technique": "explicit-state BFS over operation sequences + stateless model checking of all interleavings under a controlled scheduler, on the implementation",
 }
 
-ENGINE_OF = {"C10": "seq+sched", "C12": "sched", "C03": "seq", "C06": "seq+sched", "C09": "sched", "C08": "seq", "C02": "seq+sched", "C04": "seq+sched", "C01": "seq+sched"}
+META["C11"] = {
+    "level": "exploration",
+    "rule": "warm-up: per configuration (threshold 0/0.5/1/2/3/5/10/100 x period 1/2/5/10 s x cold factor default/2/3/5/10) BFS over all demand programs built from {burst of ceil(T)+3 simultaneous requests, steady 1 req/100 ms for 1 s, idle 1 s, idle until certainly cold, saturating demand for 2*period+3 s, patient single-token demand for period+2 s} to the depth bound, through api.Entry in virtual time; oracles on every request (effective threshold finite, >= 0, <= configured; admitted tokens per aligned window <= threshold) and per program step (cold burst <= ceil(T/cold)+1, last second of saturation >= floor(T), patient demand not starved when T >= 1); memory-adaptive: exhaustive grid of rules x memory readings around both water marks, calculator value and the number of requests really admitted; distinct = configuration + answers",
+    "assumptions": [A_CLOCK, A_OVERLAY, "'about threshold/coldFactor' is read as <= ceil(threshold/coldFactor)+1 admitted at once; 'after sustained demand for the warm-up period' is judged after 2*period+3 s of saturating demand (generous on purpose)"],
+    "budget_quick": 90,
+    "budget_thorough": 900,
+    "text": "Bounded exhaustive exploration of demand programs against envelope inequalities (no exact reference exists for the warm-up curve), plus an exhaustive finite grid for the memory-adaptive interpolation.",
+    "level_note": "Envelope oracles only; depth 4 (quick) / 6 (thorough) programs over 6 demand primitives.",
+    "technique": "explicit-state BFS over demand programs on the implementation with envelope oracles; exhaustive grid enumeration",
+}
+
+ENGINE_OF = {"C11": "seq", "C10": "seq+sched", "C12": "sched", "C03": "seq", "C06": "seq+sched", "C09": "sched", "C08": "seq", "C02": "seq+sched", "C04": "seq+sched", "C01": "seq+sched"}
 
 # properties not claimed, with the reason (kept current)
 NOT_APPLICABLE = {}
